@@ -115,11 +115,18 @@ func (v *V) cellWrite(st *State, ref string, val Val) {
 
 // nameVal gives a compound term a name (fresh constant) to keep later terms small.
 func (v *V) nameVal(e *Env, val Val, hint string) Val {
-	if e.inQuant > 0 || !strings.HasPrefix(val.S, "(") || len(val.S) < 24 {
+	if e.spec || e.inQuant > 0 || !strings.HasPrefix(val.S, "(") || len(val.S) < 24 {
 		return val
+	}
+	if e.st.names == nil {
+		e.st.names = map[string]string{}
+	}
+	if c, ok := e.st.names[val.S]; ok {
+		return Val{T: val.T, S: c, C: val.C}
 	}
 	c := v.d.fresh(hint, v.d.sortOf(val.T))
 	e.st.define(eq(c, val.S))
+	e.st.names[val.S] = c
 	return Val{T: val.T, S: c, C: val.C}
 }
 
@@ -138,7 +145,7 @@ func (v *V) readField(e *Env, base Val, f *types.Var, pos token.Pos) Val {
 		v.nilObl(e, base.S, pos, "."+f.Name())
 		comp, sort := v.fieldComp(st, f)
 		r := Val{T: f.Type(), S: fmt.Sprintf("(select %s %s)", e.st.heapGet(v.d, comp, sort), base.S)}
-		if e.inQuant == 0 {
+		if e.inQuant == 0 && !e.spec {
 			r = v.nameVal(e, r, f.Name())
 			for _, a := range v.typeInv(e.st, r) {
 				e.st.assume(a)
@@ -193,7 +200,7 @@ func (v *V) deref(e *Env, p Val, pos token.Pos) Val {
 		return Val{T: pt.Elem(), S: fmt.Sprintf("(mk_%s %s)", name, strings.Join(fs, " "))}
 	}
 	r := v.cellRead(e.st, p.S, pt.Elem())
-	if e.inQuant == 0 {
+	if e.inQuant == 0 && !e.spec {
 		for _, a := range v.typeInv(e.st, r) {
 			e.st.assume(a)
 		}
@@ -358,7 +365,7 @@ func (e *Env) evalIndex(x *ast.IndexExpr) Val {
 			v.oblige(e, "bounds", v.inRange(e, i, "(sl_len "+base.S+")", false), x.Pos(), "index out of range")
 		}
 		r := v.sliceElem(e, base, v.toIdx(e, i))
-		if e.inQuant == 0 {
+		if e.inQuant == 0 && !e.spec {
 			r = v.nameVal(e, r, "el")
 			for _, a := range v.typeInv(e.st, r) {
 				e.st.assume(a)
@@ -395,7 +402,7 @@ func (e *Env) evalIndex(x *ast.IndexExpr) Val {
 			}
 			v.d.declareFun("str_at", []string{"Str", "Int"}, "Int")
 			r := Val{T: tByte, S: fmt.Sprintf("(str_at %s %s)", base.S, v.toIdx(e, i))}
-			if e.inQuant == 0 {
+			if e.inQuant == 0 && !e.spec {
 				e.st.assume(fmt.Sprintf("(and (<= 0 %s) (<= %s 255))", r.S, r.S))
 			}
 			return r
@@ -581,7 +588,9 @@ func (v *V) appendSpread(e *Env, s Val, t Val) Val {
 	mem := e.st.heapGet(v.d, comp, sort)
 	v.d.usesQuant = true
 	idx := v.d.idxSort()
-	// result memory: fresh memory constrained pointwise
+	if len(e.st.guards) > 0 {
+		panic(unsupported("append inside a short-circuit operand"))
+	}
 	nb := v.d.fresh("app", "Int")
 	e.st.define(fmt.Sprintf("(and (> %s %s) (> %s 0))", nb, e.st.alloc, nb))
 	newAlloc := v.d.fresh("alloc", "Int")
@@ -591,17 +600,24 @@ func (v *V) appendSpread(e *Env, s Val, t Val) Val {
 	roff := v.d.fresh("roff", idx)
 	e.st.define(eq(rb, ite(fits, base, nb)))
 	e.st.define(eq(roff, ite(fits, off, v.d.idxLit(0))))
-	nmem := v.d.fresh("appmem", sort)
-	// other backing arrays unchanged
-	e.st.define(fmt.Sprintf("(forall ((qb Int)) (! (=> (not (= qb %s)) (= (select %s qb) (select %s qb))) :pattern ((select %s qb))))", rb, nmem, mem, nmem))
-	// prefix [0,ln) preserved, [ln, ln+tln) copied from t (pre-state), rest of an in-place array unchanged
-	e.st.define(fmt.Sprintf("(forall ((qi %s)) (! (=> (and %s %s) (= (select (select %s %s) %s) (select (select %s %s) %s))) :pattern ((select (select %s %s) %s))))",
-		idx, v.ile(v.d.idxLit(0), "qi"), v.ilt("qi", ln), nmem, rb, v.iadd(roff, "qi"), mem, base, v.iadd(off, "qi"), nmem, rb, v.iadd(roff, "qi")))
-	e.st.define(fmt.Sprintf("(forall ((qi %s)) (! (=> (and %s %s) (= (select (select %s %s) %s) (select (select %s %s) %s))) :pattern ((select (select %s %s) %s))))",
-		idx, v.ile(v.d.idxLit(0), "qi"), v.ilt("qi", tln), nmem, rb, v.iadd(roff, v.iadd(ln, "qi")), mem, tb, v.iadd(toff, "qi"), nmem, rb, v.iadd(roff, v.iadd(ln, "qi"))))
-	e.st.define(fmt.Sprintf("(=> %s (forall ((qi %s)) (! (=> (or %s %s) (= (select (select %s %s) qi) (select (select %s %s) qi))) :pattern ((select (select %s %s) qi)))))",
-		fits, idx, v.ilt("qi", off), v.ile(v.iadd(off, newLen), "qi"), nmem, rb, mem, base, nmem, rb))
-	e.st.heap[comp] = nmem
+	arrSort := fmt.Sprintf("(Array %s %s)", idx, v.d.sortOf(elemT))
+	sArr := v.d.fresh("sarr", arrSort)
+	tArr := v.d.fresh("tarr", arrSort)
+	e.st.define(eq(sArr, fmt.Sprintf("(select %s %s)", mem, base)))
+	e.st.define(eq(tArr, fmt.Sprintf("(select %s %s)", mem, tb)))
+	narr := v.d.fresh("apparr", arrSort)
+	lo := v.iadd(roff, ln)
+	hi := v.iadd(roff, newLen)
+	// appended part comes from t (pre-state)
+	e.st.define(fmt.Sprintf("(forall ((qj %s)) (! (=> (and %s %s) (= (select %s qj) (select %s %s))) :pattern ((select %s qj))))",
+		idx, v.ile(lo, "qj"), v.ilt("qj", hi), narr, tArr, v.iadd(toff, v.isub("qj", lo)), narr))
+	// in place: everything else unchanged
+	e.st.define(fmt.Sprintf("(forall ((qj %s)) (! (=> (and %s (or %s %s)) (= (select %s qj) (select %s qj))) :pattern ((select %s qj))))",
+		idx, fits, v.ilt("qj", lo), v.ile(hi, "qj"), narr, sArr, narr))
+	// fresh backing: prefix copied
+	e.st.define(fmt.Sprintf("(forall ((qj %s)) (! (=> (and (not %s) %s %s) (= (select %s qj) (select %s %s))) :pattern ((select %s qj))))",
+		idx, fits, v.ile(v.d.idxLit(0), "qj"), v.ilt("qj", ln), narr, sArr, v.iadd(off, "qj"), narr))
+	e.st.heapSet(v.d, comp, sort, fmt.Sprintf("(store %s %s %s)", mem, rb, narr))
 	ncap := v.d.fresh("ncap", idx)
 	e.st.define(and(v.ile(newLen, ncap), v.ile(ncap, v.d.idxLit(1<<maxLenBits)), implies(fits, eq(ncap, cp))))
 	e.st.assume(v.ile(newLen, v.d.idxLit(1<<maxLenBits)))
@@ -621,20 +637,23 @@ func (v *V) copySlices(e *Env, dst, src Val) Val {
 	db, doff, dln, _ := v.sliceParts(dst.S)
 	sb, soff, sln, _ := v.sliceParts(src.S)
 	idx := v.d.idxSort()
-	n := v.d.fresh("ncopy", idx)
-	e.st.define(eq(n, ite(v.ile(dln, sln), dln, sln)))
-	mem := e.st.heapGet(v.d, comp, sort)
-	nmem := v.d.fresh("cpmem", sort)
-	v.d.usesQuant = true
-	e.st.define(fmt.Sprintf("(forall ((qb Int)) (! (=> (not (= qb %s)) (= (select %s qb) (select %s qb))) :pattern ((select %s qb))))", db, nmem, mem, nmem))
-	e.st.define(fmt.Sprintf("(forall ((qi %s)) (! (=> (and %s %s) (= (select (select %s %s) %s) (select (select %s %s) %s))) :pattern ((select (select %s %s) %s))))",
-		idx, v.ile(v.d.idxLit(0), "qi"), v.ilt("qi", n), nmem, db, v.iadd(doff, "qi"), mem, sb, v.iadd(soff, "qi"), nmem, db, v.iadd(doff, "qi")))
-	e.st.define(fmt.Sprintf("(forall ((qi %s)) (! (=> (or %s %s) (= (select (select %s %s) qi) (select (select %s %s) qi))) :pattern ((select (select %s %s) qi))))",
-		idx, v.ilt("qi", doff), v.ile(v.iadd(doff, n), "qi"), nmem, db, mem, db, nmem, db))
 	if len(e.st.guards) > 0 {
 		panic(unsupported("copy inside a short-circuit operand"))
 	}
-	e.st.heap[comp] = nmem
+	n := v.d.fresh("ncopy", idx)
+	e.st.define(eq(n, ite(v.ile(dln, sln), dln, sln)))
+	mem := e.st.heapGet(v.d, comp, sort)
+	v.d.usesQuant = true
+	arrSort := fmt.Sprintf("(Array %s %s)", idx, v.d.sortOf(elemT))
+	srcArr := v.d.fresh("srcarr", arrSort)
+	dstArr := v.d.fresh("dstarr", arrSort)
+	e.st.define(eq(srcArr, fmt.Sprintf("(select %s %s)", mem, sb)))
+	e.st.define(eq(dstArr, fmt.Sprintf("(select %s %s)", mem, db)))
+	narr := v.d.fresh("cparr", arrSort)
+	hi := v.iadd(doff, n)
+	e.st.define(fmt.Sprintf("(forall ((qj %s)) (! (= (select %s qj) (ite (and %s %s) (select %s %s) (select %s qj))) :pattern ((select %s qj))))",
+		idx, narr, v.ile(doff, "qj"), v.ilt("qj", hi), srcArr, v.iadd(soff, v.isub("qj", doff)), dstArr, narr))
+	e.st.heapSet(v.d, comp, sort, fmt.Sprintf("(store %s %s %s)", mem, db, narr))
 	return Val{T: tInt, S: n}
 }
 
@@ -652,7 +671,7 @@ func (v *V) mapRead(e *Env, m Val, k Val) (Val, string) {
 	present := fmt.Sprintf("(select (select %s %s) %s)", e.st.heapGet(v.d, dc, ds), m.S, k.S)
 	raw := fmt.Sprintf("(select (select %s %s) %s)", e.st.heapGet(v.d, vc, vs), m.S, k.S)
 	val := Val{T: mt.Elem(), S: ite(present, raw, e.zero(mt.Elem()).S)}
-	if e.inQuant == 0 {
+	if e.inQuant == 0 && !e.spec {
 		val = v.nameVal(e, val, "mv")
 		for _, a := range v.typeInv(e.st, val) {
 			e.st.assume(a)
@@ -734,7 +753,7 @@ func (v *V) useStrOrder() {
 func (v *V) strConcat(e *Env, a, b Val) Val {
 	v.d.declareFun("str_cat", []string{"Str", "Str"}, "Str")
 	r := Val{T: a.T, S: fmt.Sprintf("(str_cat %s %s)", a.S, b.S)}
-	if e.inQuant == 0 {
+	if e.inQuant == 0 && !e.spec {
 		e.st.assume(eq(fmt.Sprintf("(str_len %s)", r.S), fmt.Sprintf("(+ (str_len %s) (str_len %s))", a.S, b.S)))
 	}
 	return r
@@ -756,7 +775,7 @@ func (v *V) strSlice(e *Env, s Val, x *ast.SliceExpr) Val {
 	}
 	v.d.declareFun("str_sub", []string{"Str", "Int", "Int"}, "Str")
 	r := Val{T: s.T, S: fmt.Sprintf("(str_sub %s %s %s)", s.S, lo, hi)}
-	if e.inQuant == 0 {
+	if e.inQuant == 0 && !e.spec {
 		e.st.assume(eq(fmt.Sprintf("(str_len %s)", r.S), fmt.Sprintf("(- %s %s)", hi, lo)))
 	}
 	return r
